@@ -42,8 +42,8 @@ def run_sequence(F, model, roles, code_state, cons, inputs, k=0):
                     nxt.append(q)
                     continue
                 if inp[0] == 'poll' and inp[2] is not None:
-                    lt = [pr for pr in o.st.preds if pr[0] == 'lt']
-                    if lt and (lt[0][2] is True) == inp[2]:
+                    before, _, _ = A.elapsed_vs_timeout(o.st.preds)
+                    if before is not None and before == inp[2]:
                         continue      # recorded "elapsed < timeout" contradicts the scenario
                 outs_m = A.extract_outputs(F, roles, o.value, o.st) if inp[0] != 'reset' else []
                 if outs_m is None:
